@@ -1,7 +1,7 @@
 //! One entry per property: which families it runs, which clauses count, what the evidence says.
 use crate::common::*;
 use crate::orch::*;
-use crate::{fam_lit, fam_path, fam_race, fam_sync, lit, rc11, sync};
+use crate::{arcs, fam_lit, fam_path, fam_race, fam_sync, lit, rc11, sync};
 use serde_json::{json, Value};
 use std::time::{Duration, Instant};
 
@@ -12,6 +12,7 @@ pub fn work(family: &str, prop: &str, tier: u8, seed: u64, idx: usize) -> Rec {
         "path" => fam_path::work(prop, tier, seed, idx),
         "sync" => fam_sync::work(prop, tier, seed, idx),
         "race" => fam_race::work(tier, seed, idx),
+        "arc" => arcs::work(prop, tier, seed, idx),
         _ => {
             let mut r = Rec::new(idx);
             r.status = format!("inconclusive:unknown-family-{}", family);
@@ -109,8 +110,24 @@ fn def(prop: &str, tier: u8) -> Option<Def> {
             assumptions: vec!["no re-entrant locking, no recursive reads, one Notify waiter, only the main thread joins and receives"],
             min_nontrivial: 100,
         },
+        "C10" => Def {
+            parts: vec![("arc", arcs::total(prop, tier)), ("sync", fam_sync::total(prop, tier))],
+            clauses: vec!["false_leak", "missed_leak", "loom_internal_panic", "process_died"],
+            rule: "arc part: loom::sync::Arc handles cloned, dropped, forgotten, dropped only when a flag was not seen (schedule-dependent leak), try_unwrap, into_raw/from_raw round trips, increment/decrement_strong_count, one alloc::Track value per thread dropped or forgotten, alloc/dealloc pairs and orphans, in 2-3 threads (every handle created before the first spawn); sync part: messages left queued with the receiver dropped (drained) or forgotten. loom must end with a leak panic of a kind the reference's live set can reach, and with none otherwise. non-trivial = >= 2 threads with operations and >= 2 reference terminals or loom iterations",
+            trusted: vec!["harness/src/arcs.rs reference-count machine", "harness/src/sync.rs reference machine (message queue)", "interpreters"],
+            assumptions: vec!["when Arc and allocation leaks are both reachable either message is accepted"],
+            min_nontrivial: 100,
+        },
+        "C11" => Def {
+            parts: vec![("arc", arcs::total(prop, tier))],
+            clauses: vec!["replay_invalid", "drop_count", "extra_outcome", "missing_outcome", "false_race", "false_leak", "missed_leak", "loom_internal_panic", "process_died", "false_deadlock"],
+            rule: "every 2-thread program with <= 2 (thorough 3) handle operations per thread over clone/drop/strong_count/get_mut + pinned shapes (try_unwrap races, raw round trips, increment/decrement) + random programs (2-3 threads, <= 8 handle operations); every returned count / Option / Result is replayed on a reference-count machine in log order, the payload's destructor must run exactly once per iteration, result sets must equal the reference's, and the payload (read through every handle before its drop, written by the destructor) must not be reported as racing. non-trivial = >= 2 threads with operations and >= 2 reference terminals or loom iterations",
+            trusted: vec!["harness/src/arcs.rs reference-count machine + replay", "interpreter (all handles created before the first spawn)"],
+            assumptions: vec!["handle-heavy programs explode; <= 8 handle operations per program"],
+            min_nontrivial: 100,
+        },
         "C06" => Def {
-            parts: vec![("sync", fam_sync::total(prop, tier))],
+            parts: vec![("sync", fam_sync::total(prop, tier)), ("arc", arcs::total(prop, tier))],
             clauses: vec!["missed_failure", "missed_deadlock", "missed_race", "missed_leak", "wrong_failure", "false_failure", "false_deadlock", "false_race", "false_leak", "loom_internal_panic", "process_died", "dirty_after_failure", "unexpected_branch_limit"],
             rule: "programs over all blocking primitives, SeqCst atomics and cells with injected user assertions (unconditional, or conditioned on the preceding try_lock/try_read/try_write/try_recv result so that the failing iteration is not the first): raised in any thread, while holding mutex / rwlock guards, while other threads are blocked in lock/recv/wait/park/join, before a spawned thread ever ran, with the objects behind std or loom::sync::Arc; pinned shapes of the property text. The reference machine decides which failures are reachable; loom::model must unwind with one of them (and return normally when none is), the worker process must survive, and a probe model run afterwards in the same process must behave exactly as in a fresh process. non-trivial = >= 2 threads with operations and >= 2 reference terminals or loom iterations",
             trusted: vec!["harness/src/sync.rs reference machine", "panic classifier (common.rs)", "interpreters"],
@@ -144,6 +161,7 @@ fn died(family: &str, prop: &str, tier: u8, seed: u64, idx: usize, status: &str)
     }
     match family {
         "sync" => Some(fam_sync::describe_died(prop, tier, seed, idx, status)),
+        "arc" => Some(arcs::describe_died(prop, tier, seed, idx, status)),
         _ => None,
     }
 }
@@ -216,6 +234,10 @@ pub fn replay(path: &str) -> i32 {
         "sync" => {
             let p: sync::SProg = serde_json::from_value(v["program_json"].clone()).expect("program_json");
             fam_sync::judge(prop, &p, &mut rec, 1, true);
+        }
+        "arc" => {
+            let p: arcs::AProg = serde_json::from_value(v["program_json"].clone()).expect("program_json");
+            arcs::judge(&p, &mut rec, 1, true);
         }
         "race" => {
             let p: lit::Prog = serde_json::from_value(v["program_json"].clone()).expect("program_json");
